@@ -98,6 +98,10 @@ pub fn get(prop: &str, tier: &str) -> Option<Check> {
                 batches.push(Batch { name: "client_lockstep_rtu", f: scen::client::run_lockstep_rtu, cfg: cfg(Mode::LockStep, false, 0), runs: n(60_000, 2_000_000), real: REAL_CLIENT_RTU, stub: STUB_CLIENT_RTU });
                 batches.push(Batch { name: "client_lockstep_rtu_faults", f: scen::client::run_lockstep_rtu, cfg: cfg(Mode::LockStep, true, 0), runs: n(20_000, 500_000), real: REAL_CLIENT_RTU, stub: STUB_CLIENT_RTU });
             }
+            if p != "C14" || true {
+                batches.push(Batch { name: "client_racy", f: scen::racy::run_client_racy, cfg: cfg(Mode::Racy, false, 0), runs: n(60_000, 2_000_000), real: REAL_CLIENT_TCP, stub: STUB_CLIENT_TCP });
+                batches.push(Batch { name: "client_racy_faults", f: scen::racy::run_client_racy, cfg: cfg(Mode::Racy, true, 0), runs: n(60_000, 2_000_000), real: REAL_CLIENT_TCP, stub: STUB_CLIENT_TCP });
+            }
             if p == "C10" {
                 batches.push(Batch { name: "ffi_client", f: scen::ffi::run_client, cfg: cfg(Mode::LockStep, false, 0), runs: n(10_000, 300_000), real: REAL_FFI, stub: STUB_FFI });
             }
